@@ -43,7 +43,12 @@ CapMatches(c, b) ==
 
 \* ------------------------------------------------------------------ value conditions (C12)
 Mod(a, n) == a % n     \* TLC's % is the mathematical modulo for n > 0
-Sat(cd, v) ==
+\* values are integer codes; FloatBase + n stands for the float n.0 (equal to the int n, a different object of another type)
+FloatBase == 400000
+IsFloat(v) == v >= FloatBase /\ v < FloatBase + 100000
+Num(v) == IF IsFloat(v) THEN v - FloatBase ELSE v
+Sat(cd, v0) ==
+  LET v == Num(v0) IN
   CASE cd.k = "none"    -> TRUE
     [] cd.k = "eq"      -> v = cd.n
     [] cd.k = "lt"      -> v < cd.n
@@ -121,7 +126,9 @@ RecVal(rec, key) == LET s == {x \in rec : x[1] = key} IN IF s = {} THEN Decline 
 OvrVal(ovr, rec, fkey) ==
   CASE ovr.k = "const"  -> ovr.c
     [] ovr.k = "addkey" -> IF RecVal(rec, ovr.key) = Decline THEN Decline ELSE RecVal(rec, ovr.key) + ovr.n
-    [] ovr.k = "iflt"   -> IF RecVal(rec, fkey) < ovr.n THEN ovr.c ELSE Decline
+    [] ovr.k = "iflt"   -> IF Num(RecVal(rec, fkey)) < ovr.n THEN ovr.c ELSE Decline
+    \* the value the program computed itself, as a float: equal to it, yet another object - the substitution must happen
+    [] ovr.k = "samefloat" -> IF Num(RecVal(rec, fkey)) < 100000 THEN FloatBase + Num(RecVal(rec, fkey)) ELSE Decline
     [] OTHER            -> Decline
 
 \* ------------------------------------------------------------------ focus-free selectors (C07)
